@@ -255,7 +255,15 @@ func scenario(cf scfg, kinds map[int]string, rng *rand.Rand) (l *lab.Lab, viol [
 			pat.WriteString("L" + kinds[next])
 			k := span(kinds, next)
 			peerSent = next + k - 1
-			step(fmt.Sprintf("live %s %d", kinds[next], next), build(next, false), next, true, kinds[next])
+			// while a replay is in progress the staleness of SendingTime is not judged: a live message stamped long
+			// ago (a peer with a slow clock, a recovery that takes longer than MaxLatency) is kept and delivered like any other
+			if recovering() && kinds[next] == "D" && rng.Intn(5) == 0 {
+				p.SendingTimeOffset = -10 * time.Minute
+				pat.WriteString("~old")
+			}
+			raw := build(next, false)
+			p.SendingTimeOffset = 0
+			step(fmt.Sprintf("live %s %d", kinds[next], next), raw, next, true, kinds[next])
 			next += k
 		}
 	}
